@@ -389,6 +389,40 @@ def main(out_path):
     L.append('def hop_max_msat (capacity : EffectiveCapacity) (channel_saturation_pow_half used_liquidity_msat : Nat) : Nat :=')
     L.append('  max_htlc_from_capacity capacity channel_saturation_pow_half - used_liquidity_msat')
     L.append('')
+
+    # ---- blinded_path/payment.rs compute_aggregated_base_prop_fee (used by PaymentPath::max_final_value_msat) -----
+    pay = rd('lightning/src/blinded_path/payment.rs')
+    params, ret, body = find_fn(pay, 'compute_aggregated_base_prop_fee')
+    b = strip_comments(body)
+    shape = ' '.join(re.sub(r'curr_base_fee = curr_base_fee.*?\.ok_or\(\(\)\)\?;', 'BASE;', re.sub(r'curr_prop_mil = curr_prop_mil.*?\.ok_or\(\(\)\)\?;', 'PROP;', b, flags=re.S), flags=re.S).split())
+    want_shape = ('{ let mut curr_base_fee: u64 = 0; let mut curr_prop_mil: u64 = 0; for fees in hops_fees.rev() { let next_base_fee = fees.base_msat as u64; '
+                  'let next_prop_mil = fees.proportional_millionths as u64; BASE; PROP; } Ok((curr_base_fee, curr_prop_mil)) }')
+    if shape != want_shape: raise TranslateError("compute_aggregated_base_prop_fee: loop shape changed: %r" % shape)
+    m1 = re.findall(r'curr_base_fee = (curr_base_fee.*?)\.ok_or\(\(\)\)\?;', b, re.S)
+    m2 = re.findall(r'curr_prop_mil = (curr_prop_mil.*?)\.ok_or\(\(\)\)\?;', b, re.S)
+    if len(m1) != 1 or len(m2) != 1: raise TranslateError("compute_aggregated_base_prop_fee: the two update statements were not found")
+    e1, e2 = ' '.join(m1[0].split()), ' '.join(m2[0].split())
+    for e, allowed in ((e1, {'curr_base_fee', 'next_prop_mil', 'next_base_fee'}), (e2, {'curr_prop_mil', 'next_prop_mil'})):
+        names = set(re.findall(r'[A-Za-z_][A-Za-z0-9_]*', e)) - {'checked_mul', 'checked_add', 'checked_sub', 'and_then', 'map', 'f', 'f1', 'f2', '_000_000', '_000'}
+        names = {n for n in names if not re.fullmatch(r'_?\d[\d_]*', n)}
+        if not names <= allowed: raise TranslateError("compute_aggregated_base_prop_fee: names outside %s: %s" % (sorted(allowed), sorted(names - allowed)))
+    em = Emitter()
+    L.append('/-- blinded_path/payment.rs compute_aggregated_base_prop_fee, loop body (translated): `curr_base_fee = %s.ok_or(())?;` -/' % e1)
+    L.append('def agg_base_step (curr_base_fee next_base_fee next_prop_mil : Nat) : Option Nat :=')
+    L.append('  ' + em.e(parse_expr(e1)))
+    L.append('')
+    L.append('/-- … (translated): `curr_prop_mil = %s.ok_or(())?;` -/' % e2)
+    L.append('def agg_prop_step (curr_prop_mil next_prop_mil : Nat) : Option Nat :=')
+    L.append('  ' + em.e(parse_expr(e2)))
+    L.append('')
+    # max_final_value_msat: the surrounding loop is pinned
+    params, ret, body = find_fn(router, 'max_final_value_msat')
+    b = ' '.join(strip_comments(body).split())
+    for frag in ('let mut max_path_contribution = (0, u64::MAX);', 'for (idx, (hop, _)) in self.hops.iter().enumerate() {',
+                 '.skip(idx + 1) .map(|(hop, _)| hop.candidate.fees());', '.map_err(|_| idx + 1)?;',
+                 'let hop_contribution: u64 = hop_contribution.try_into().unwrap_or(u64::MAX); if hop_contribution <= max_path_contribution.1 { max_path_contribution = (idx, hop_contribution); } } else { debug_assert!(false); }',
+                 'Ok(max_path_contribution)'):
+        if frag not in b: raise TranslateError("max_final_value_msat: `%s` not found" % frag)
     # get_route: the CLTV budget of the search
     ms = re.findall(r'let max_total_cltv_expiry_delta: u16 =\s*(.*?);', router, re.S)
     if len(ms) != 1: raise TranslateError("get_route: expected one `let max_total_cltv_expiry_delta: u16 = …;`, found %d" % len(ms))
